@@ -10,6 +10,7 @@ CONSTANTS FltIds = {f1, f2}
  WriteDirtyThrough = FALSE
  QauKeepsDirty = TRUE
  RoCheckSetOps = TRUE
+ RemarkWhenDirty = TRUE
 INVARIANT CInv
 CONSTRAINT MCBound
 CHECK_DEADLOCK FALSE
